@@ -13,7 +13,7 @@ VOIDS = ['br', 'img', 'input', 'hr', 'meta', 'link']
 PRE = ['pre', 'code']
 RAW = ['script', 'style']
 ANAMES = ['id', 'title', 'data-x', 'data-y', 'checked', 'hidden', 'open', 'class', 'style', 'href', 'lang']
-AVALS = ['v', '', 'two words', 'q"q', "it's", '<b>', 'a>b', 'é', '7', 'x  y']
+AVALS = ['v', '', 'two words', 'q"q', "it's", '<b>', 'a>b', 'é', '7', 'x  y', 'next >', 'a /> b', 'n > 3']
 TEXTS = ['x', 'yy', ' ', '\n', ' a b ', '&amp;', '&#65;', '&lt;tag&gt;', '<!--c-->', '<!-- c -->', 'é', 'a > b', 'x\ty', '  ']
 
 
